@@ -368,6 +368,14 @@ func runC06(ctx *Ctx) {
 		cr.run(ctx)
 	}
 	if ctx.Replay == "" {
+		var pages []*nurl.URL
+		for _, us := range urls {
+			u, _ := nurl.Parse(us)
+			pages = append(pages, u)
+		}
+		srcsetCorr(ctx, ctx.pick(4000, 200000), pages).run(ctx)
+	}
+	if ctx.Replay == "" {
 		// one Options value (and so one page URL object) reused for a series of pages, with
 		// pagination switched on and both algorithms: every page must be resolved against the page
 		// URL the caller supplied, not against whatever an earlier call left behind
